@@ -357,7 +357,7 @@ Qed.
 Theorem table_declared_exact : forall ap a table n es items a',
   dtable ap a table n es false items = Some a' -> aget n (a_types a) = None -> NoDup (item_names items) ->
   exists fields at_,
-    aget n (a_types a') = Some (Ty (if table then KRel fields (pks_of fields (item_names items)) else KTuple fields) false [] at_ "") /\
+    aget n (a_types a') = Some (Ty (if table then KRel fields (add_pks fields (item_names items) []) else KTuple fields) false [] at_ "") /\
     (forall f, In (TField f) items -> aget (fd_name f) fields = dfield ap [n] f) /\
     (forall x, aget x fields <> None -> In x (item_names items)) /\
     (forall n', n' <> n -> aget n' (a_types a') = aget n' (a_types a)) /\
@@ -368,7 +368,7 @@ Proof.
   destruct (ditems_exact _ _ _ _ _ _ _ _ _ Hd Hnd) as (Hn & Hc & Hs). cbn [List.app] in Hn. subst names.
   injection H as <-. exists fields, at2. cbn [negb]. repeat split.
   - unfold put_type, set_types. cbn [a_types]. rewrite aget_aset_eq. destruct table; cbn [negb]; [|reflexivity].
-    destruct (pks_of fields (item_names items)); reflexivity.
+    reflexivity.
   - exact Hc.
   - intros x Hx. destruct (in_dec string_dec x (item_names items)) as [|Hnot]; [assumption|].
     rewrite (Hs _ Hnot) in Hx. cbn in Hx. congruence.
@@ -509,7 +509,7 @@ Corollary table_declared_exact_wf : forall ap a table n es items a',
   member_fields_ok (MType table n es false items) = true ->
   dtable ap a table n es false items = Some a' -> aget n (a_types a) = None ->
   exists fields at_,
-    aget n (a_types a') = Some (Ty (if table then KRel fields (pks_of fields (item_names items)) else KTuple fields) false [] at_ "") /\
+    aget n (a_types a') = Some (Ty (if table then KRel fields (add_pks fields (item_names items) []) else KTuple fields) false [] at_ "") /\
     (forall f, In (TField f) items -> aget (fd_name f) fields = dfield ap [n] f) /\
     (forall x, aget x fields <> None -> In x (item_names items)).
 Proof.
